@@ -690,7 +690,7 @@ def load_corpus(prop_id):
     return out
 
 
-def standard_run(ctx: Ctx, props, focus=None, opts=None, n_quick=48, n_thorough=1200, depth_quick=2, depth_thorough=3,
+def standard_run(ctx: Ctx, props, focus=None, opts=None, n_quick=64, n_thorough=1200, depth_quick=2, depth_thorough=3,
                  prop_id=None, zero_len=0.0):
     """The standard E check: corpus and known-finding replays first, then random histories."""
     opts = opts or {}
